@@ -5,6 +5,25 @@
 #include <eigen3/Eigen/Sparse>
 #include <limits>
 
+#ifdef COLOQUINTE_VERIF
+namespace coloquinte {
+namespace verif {
+void (*solveHook)(const void *model, int phase) = nullptr;
+namespace {
+struct SolveScope {
+  explicit SolveScope(const void *model) : model_(model) {
+    if (solveHook != nullptr) solveHook(model_, 0);
+  }
+  ~SolveScope() {
+    if (solveHook != nullptr) solveHook(model_, 1);
+  }
+  const void *model_;
+};
+}  // namespace
+}  // namespace verif
+}  // namespace coloquinte
+#endif
+
 namespace coloquinte {
 NetModel::Parameters::Parameters() {
   netModel = NetModelOption::BoundToBound;
@@ -644,6 +663,9 @@ std::vector<float> NetModel::solveWithPenalty(
     const std::vector<float> &netPlacement,
     const std::vector<float> &placementTarget,
     const std::vector<float> &penaltyStrength, const Parameters &params) const {
+#ifdef COLOQUINTE_VERIF
+  verif::SolveScope verifScope(this);
+#endif
   MatrixCreator builder = MatrixCreator::create(
       *this, netPlacement, params.approximationDistance, params.netModel);
   builder.addPenalty(netPlacement, placementTarget, penaltyStrength,
